@@ -52,6 +52,18 @@ pub struct Acc {
     pub viol_total: u64,
     pub samples: Vec<String>,
     pub panics: u64,
+    /// violations matched against known_findings.txt at the moment they were found: key -> count
+    pub known: BTreeMap<String, u64>,
+}
+
+static KNOWN: std::sync::OnceLock<Vec<Known>> = std::sync::OnceLock::new();
+
+/// must be called once before any violation is recorded
+pub fn init_known(prop: &str) {
+    let _ = KNOWN.set(load_known(prop));
+}
+fn known() -> &'static [Known] {
+    KNOWN.get().map(|v| v.as_slice()).unwrap_or(&[])
 }
 
 pub fn hash64(s: &[u8]) -> u64 {
@@ -86,9 +98,15 @@ impl Acc {
         }
     }
     pub fn viol(&mut self, universe: &'static str, input: String, class: Option<&'static str>, detail: String) {
+        let v = Viol { input, class, detail, universe };
+        let keys = viol_keys(&v);
+        if let Some(k) = known().iter().find(|k| keys.iter().any(|x| *x == k.key)) {
+            *self.known.entry(k.key.clone()).or_insert(0) += 1;
+            return;
+        }
         self.viol_total += 1;
         if self.viols.len() < VIOL_CAP {
-            self.viols.push(Viol { input, class, detail, universe });
+            self.viols.push(v);
         }
     }
     pub fn merge(mut self, mut o: Acc) -> Acc {
@@ -113,6 +131,9 @@ impl Acc {
             if self.samples.len() < 6 {
                 self.samples.push(s);
             }
+        }
+        for (k, v) in o.known {
+            *self.known.entry(k).or_insert(0) += v;
         }
         self
     }
@@ -230,16 +251,11 @@ impl Report {
     pub fn finish(mut self) -> i32 {
         let known = load_known(self.prop);
         let mut known_hits: BTreeMap<String, (u64, String)> = BTreeMap::new();
-        let mut unknown: Vec<Viol> = Vec::new();
-        for v in &self.acc.viols {
-            let keys = viol_keys(v);
-            if let Some(k) = known.iter().find(|k| keys.iter().any(|x| *x == k.key)) {
-                let e = known_hits.entry(k.key.clone()).or_insert((0, k.what.clone()));
-                e.0 += 1;
-            } else {
-                unknown.push(v.clone());
-            }
+        for (k, n) in &self.acc.known {
+            let what = known.iter().find(|x| x.key == *k).map(|x| x.what.clone()).unwrap_or_default();
+            known_hits.insert(k.clone(), (*n, what));
         }
+        let mut unknown: Vec<Viol> = self.acc.viols.clone();
         // violations beyond the cap were not triaged individually: if all triaged ones are known and of a class,
         // the overflow is attributed to nothing and reported as unknown to stay sound.
         let untriaged = self.acc.viol_total - self.acc.viols.len() as u64;
@@ -261,12 +277,7 @@ impl Report {
             viol_lines.push(format!("VIOLATION property={} replay={}", self.prop, path.display()));
             eprintln!("--- violation {} [{}] class={:?}\n    input : {:?}\n    detail: {}", i, v.universe, v.class, v.input, v.detail);
         }
-        if untriaged > 0 && unknown.is_empty() {
-            // more violations than the cap, all triaged ones known: cannot prove the rest are known
-            let path = replay_dir.join("viol_overflow.json");
-            let _ = std::fs::write(&path, format!("{{\"property\":\"{}\",\"untriaged\":{}}}", self.prop, untriaged));
-            viol_lines.push(format!("VIOLATION property={} replay={}", self.prop, path.display()));
-        }
+        let _ = untriaged; // violations beyond the cap are all unknown ones (known ones never enter the list)
         for (k, (n, what)) in &known_hits {
             println!("KNOWN-FINDING: property={} key={} cases={} {}", self.prop, k, n, what);
         }
@@ -313,7 +324,7 @@ impl Report {
             "coverage": serde_json::Value::Object(cov),
             "assumptions": self.assumptions,
             "wall_s": (wall * 100.0).round() / 100.0,
-            "violations": unknown.len() as u64 + if viol_lines.len() > unknown.len().min(25) { 1 } else { 0 },
+            "violations": self.acc.viol_total,
         });
         let evpath = format!("{}/evidence/{}.json", verif_dir(), self.prop);
         let _ = std::fs::create_dir_all(format!("{}/evidence", verif_dir()));
